@@ -6,8 +6,9 @@ HARNESS = "harness/core/internal/integration_tests/c06_relay_test.go"
 
 
 def _shard(name, i, n, tiers):
-    return job(name, "core", "./internal/integration_tests/", "integration_tests", [KIT, HARNESS], "^TestVerifC06",
-               ["c06-relay-%dof%d" % (i + 1, n), "c06-parallel-%dof%d" % (i + 1, n), "c06-churn-%dof%d" % (i + 1, n)],
+    return job(name, "core", "./internal/integration_tests/", "integration_tests", [KIT, HARNESS], "^TestVerifC06(Relay|Parallel|Churn|Boundary)$",
+               ["c06-relay-%dof%d" % (i + 1, n), "c06-parallel-%dof%d" % (i + 1, n), "c06-churn-%dof%d" % (i + 1, n),
+                "c06-boundary-%dof%d" % (i + 1, n)],
                race=False, timeout_quick=600, timeout_thorough=3600,
                tiers=tiers, env={"VERIF_C06_SHARD": "%d/%d" % (i, n)})
 
@@ -19,7 +20,10 @@ PROP = {
     # One process runs its bubbles strictly one after the other (go1.25.0: concurrent bubbles + GC can
     # freeze a bubble); the case list is split over processes by VERIF_C06_SHARD=i/n.
     "jobs": [_shard("q%d" % i, i, 2, ("quick",)) for i in range(2)]
-            + [_shard("t%d" % i, i, 8, ("thorough",)) for i in range(8)],
+            + [_shard("t%d" % i, i, 8, ("thorough",)) for i in range(8)]
+            + [job("real", "core", "./internal/integration_tests/", "integration_tests",
+                   [KIT, HARNESS, "harness/core/internal/integration_tests/c06_real_test.go"], "^TestVerifC06Real$",
+                   ["c06-real"], race=False, timeout_quick=600, timeout_thorough=3600)],
     "parallel": 8,
     "min_events": 3000,
     "rule": ("PRNG worlds (virtual time, one-way latency 1..50 ms, loss 0..3 % in veto-free worlds, traffic logger "
@@ -29,7 +33,19 @@ PROP = {
              "keeps uploading, the (harness-owned, slow) EventLogger.TCPError holds the server 80..300 ms between the relay "
              "function returning and the close of A's two ends, and in that window 2..3 relays B of other users start and "
              "stream both ways with a logger taking 0.3..2 ms per chunk -- anything shared between a relay being torn down "
-             "and a starting one shows as foreign bytes. Relay script = mode in "
+             "and a starting one shows as foreign bytes; 'boundary' worlds (own part, enumerated, fast open off/on): request "
+             "ADDRESS lengths and dial-error MESSAGE lengths 62, 63, 64, 65, 2047, 2048 (varint width changes, 16383/16384 "
+             "capped by the 2048 limits), each relay with its own client (the same lengths are also sampled in 1/5 of the "
+             "'exact' relays / half of their failed dials); Client.TCP and the first fast-open Read are bounded by 300 s of "
+             "virtual time (never answered => dial:request-never-answered / dial:error-not-carried); and a REAL-SOCKET part "
+             "(job 'real', real time, no bubble): real server on UDP 127.0.0.1:0 with the DEFAULT outbound (targets are "
+             "*net.TCPConn), real clients, harness TCP listeners on 127.0.0.1:0, 32 relays quick / 240 thorough cycling "
+             "c_close_ii, t_close_ii (FIN), t_halfclose_ii (CloseWrite), t_rst (SetLinger(0)+Close mid-stream), veto_rx, "
+             "veto_tx (n-th call of that direction, n in 1..4), dial_refused (listener closed; DialError.Message must equal the "
+             "error text in the server's EventLogger.TCPError); there only load-safe oracles decide: prefix both directions, "
+             "completeness shape (ii) when the receiver saw the end of stream (watchdog 40 s => inconclusive), arrived <= "
+             "approved at every arrival, and after a veto a Client.TCP issued after 100 (and again after 200) complete round "
+             "trips of another user's relay through the same server must fail with ClosedError. Relay script = mode in "
              "{quiesce, c_close_idle, t_close_idle, c_close_mid, t_close_mid, both_close, t_error, dial_fail} x sizes "
              "0..2 MiB per direction x write chunking 1..64 KiB x pacing sleeps x client read buffer 1..64 KiB x fast "
              "open on/off (late first Read) x veto at LogTraffic call n in {1,2,3..20} one-shot or sticky, answered at once "
@@ -45,7 +61,9 @@ PROP = {
              "a new Client.TCP fails with ClosedError. An evaluation is one relay; distinct = distinct "
              "(mode, sizes, chunking, cut point, read buffer, fast open, logger, veto, streams, latency, loss)."),
     "assumptions": [
-        "targets are in-memory duplex pipes (no kernel TCP half-close/RST semantics)",
+        "bubble parts: targets are in-memory duplex pipes; kernel TCP semantics (WriterTo/ReaderFrom, OpError wrapping, FIN, "
+        "half-close, RST) are exercised by the real-socket part only, with load-safe oracles",
+        "real-socket part: 'later' after a veto = 2 x 100 complete round trips of another user through the same server",
         "no request hook is configured (the accounting clause only covers un-hooked connections)",
         "the close after a veto is observed on a lossless link, >= 1 s + 8 one-way latencies of virtual time later",
         "300 s of virtual time without delivery while nobody closed counts as never",
